@@ -1126,7 +1126,7 @@ func bPutinterval(intp *Interpreter) error {
 		if !ok {
 			return intp.e(eTypecheck, "putinterval: mismatched argument types")
 		}
-		if int(index)+len(src) > len(dst) {
+		if int(index) > len(dst)-len(src) {
 			return intp.e(eRangecheck, "putinterval: index out of range")
 		}
 		copy(dst[index:], src)
@@ -1135,7 +1135,7 @@ func bPutinterval(intp *Interpreter) error {
 		if !ok {
 			return intp.e(eTypecheck, "putinterval: mismatched argument types")
 		}
-		if int(index)+len(src) > len(dst) {
+		if int(index) > len(dst)-len(src) {
 			return intp.e(eRangecheck, "putinterval: index out of range")
 		}
 		copy(dst[index:], src)
